@@ -23,7 +23,8 @@ REQUIRED_FEATURES = ["encoding:enum", "encoding:int", "map:swap", "map:longer-na
                      "map:partial", "chain:>1", "check:live-object", "check:reopened",
                      "many-contigs:enum-to-int-fallback", "location:nested-group", "location:nested-group+root-cooler",
                      "map:same-dict-object-applied-to-two-coolers", "cooler-object:constructed-with-h5py-options",
-                     "map:unstorable-name-refused"]
+                     "map:unstorable-name-refused", "cooler-object:relative-path-then-chdir",
+                     "history:rename-through-a-second-older-object"]
 
 
 def plan(tier, seed):
@@ -99,6 +100,8 @@ def one_chain(ctx, cid, rng, idx):
     lengths = [e[-1] for _, e in bt]
     steps = int(rng.integers(1, 5))
     chain = []
+    cwd0 = os.getcwd()
+    path0 = path
     with ctx.case(cid, {"bt": bt, "symm": symm, "encoding": enc, "chain": chain}) as c:
         c.feature(f"encoding:{enc}")
         c.feature("location:root" if group == "/" else "location:nested-group" + ("+root-cooler" if root_too else ""))
@@ -107,6 +110,22 @@ def one_chain(ctx, cid, rng, idx):
         clr = cooler.Cooler(uri, **okw)
         if okw:
             c.feature("cooler-object:constructed-with-h5py-options")
+        obj2 = cooler.Cooler(uri)                   # a second object of the same cooler, opened before any rename
+        relcase = bool(idx % 5 == 2 and not okw)
+        if relcase:
+            # the object is built from a RELATIVE path; the working directory changes before the rename to a directory
+            # that holds a same-named file: every access of the object then means THAT file, consistently
+            d1, d2 = ctx.newdir(), ctx.newdir()
+            import shutil
+            shutil.copy(path, os.path.join(d1, "same.cool"))
+            shutil.copy(path, os.path.join(d2, "same.cool"))
+            os.chdir(d1)
+            clr = cooler.Cooler("same.cool" + ("::" + group if group != "/" else ""))
+            os.chdir(d2)
+            path = os.path.join(d2, "same.cool")          # what the object's name means from now on
+            uri = path if group == "/" else path + "::" + group
+            obj2 = cooler.Cooler(uri)
+            c.feature("cooler-object:relative-path-then-chdir")
         dig0 = raw_nonname_digest(path, group)
         root_dig0 = h5state.digest_uri(path, "/") if root_too else None
         snap0 = snapshot(clr, names)
@@ -188,7 +207,15 @@ def one_chain(ctx, cid, rng, idx):
                         f"side cooler with chromosome {first!r} after rename_chroms({mp}): {cooler.Cooler(side).chromnames}")
                 os.remove(side)
                 c.feature("map:same-dict-object-applied-to-two-coolers")
-            cooler.rename_chroms(clr, mp)
+            via_other = bool(not relcase and len(chain) >= 2 and rng.random() < 0.4)
+            if via_other:
+                # this step goes through the OTHER object (opened before the earlier renames, never refreshed):
+                # the map is partial - chromosomes it does not mention keep the names they have NOW in the file
+                cooler.rename_chroms(obj2, mp)
+                clr = cooler.Cooler(uri, **okw)
+                c.feature("history:rename-through-a-second-older-object")
+            else:
+                cooler.rename_chroms(clr, mp)
             orig_of = {mp.get(k_, k_): v for k_, v in orig_of.items()}
             gone = [x for x in cur if x not in new_cur]
             cur = new_cur
@@ -243,7 +270,8 @@ def one_chain(ctx, cid, rng, idx):
         if len(names) >= 2 and chain:
             c.nontrivial(repr(bt), repr(chain), enc, symm)
         ctx.sample({"chromosomes": names, "chain": chain, "encoding": enc}, limit=5)
-    os.remove(path)
+    os.chdir(cwd0)
+    os.remove(path0)
 
 
 def many_contigs(ctx, shard):
